@@ -310,14 +310,23 @@ class LexicalParent(HasLabel, Generic[ChildType], ABC):
             pass
         else:
             label = self._get_unique_label(label, strict_naming)
+            old_label = child.label
+            is_relabel = self._this_child_is_already_at_a_different_label(child, label)
 
-            if self._this_child_is_already_at_a_different_label(child, label):
+            # Update (and thereby validate) the label before touching the children
+            child.label = label
+            if is_relabel:
                 self.children.inv.pop(child)
 
-            # Finally, update label and reflexively form the parent-child relationship
-            child.label = label
+            # Finally, reflexively form the parent-child relationship
             self.children[child.label] = child
-            child.parent = self
+            try:
+                child.parent = self
+            except Exception:
+                # The child refused us (e.g. it is parent-most); leave no trace
+                self.children.pop(child.label)
+                child.label = old_label
+                raise
         return child
 
     def _ensure_child_has_no_other_parent(self, child: Lexical) -> None:
